@@ -56,6 +56,10 @@ def gen_cases(tier, seed):
                               'gc_threshold': rng.choice([None, 700, 100, 10]), 'seed': rng.randrange(1 << 30)})
                 start.append({'kind': 'start-fault', 'name': name, 'tree': tree, 'fail_leaf': leaf[1], 'fail_index': wi, 'transient': True,
                               'gc_threshold': None, 'seed': rng.randrange(1 << 30)})
+                if wi == leaf[2] - 1 and name in ('T3', 'P2', 'seqTP', 'ensTP', 'swTP'):
+                    # the worker gives up with SystemExit (not an Exception subclass)
+                    start.append({'kind': 'start-fault', 'name': name, 'tree': tree, 'fail_leaf': leaf[1], 'fail_index': wi, 'init_kind': 'sysexit',
+                                  'gc_threshold': None, 'seed': rng.randrange(1 << 30)})
         for wl in ('none', 'ok', 'failures', 'timeouts', 'abandoned-stream'):
             stop.append({'kind': 'stop', 'name': name, 'tree': tree, 'workload': wl, 'cycles': 3, 'pending': rng.choice([50, 150, 400]),
                          'pad': rng.choice([100, 1000, 4000]), 'mode': rng.choice(['sync', 'sync', 'async']), 'seed': rng.randrange(1 << 30)})
@@ -75,7 +79,7 @@ def gen_cases(tier, seed):
             rng.shuffle(lst)
         must = {'seqPT', 'seqPP', 'P3b', 'ensTP', 'seq-ensP'}  # multi-worker process stage upstream of another reader, process ensemble members
         bigq = [c for c in big if c['name'] in must and c['mode'] == 'sync'] + [c for c in big if c['mode'] == 'async' and c['name'] in ('P2', 'seqPT', 'seqPP', 'seq-ensP')]
-        cases = thr_s + prc_s[:14] + thr_e + prc_e[:12] + bigq
+        cases = thr_s + prc_s[:14] + [c for c in prc_s[14:] if c.get('init_kind')] + thr_e + prc_e[:12] + bigq
     else:
         cases = start + stop + big
         for c in list(start):
@@ -106,7 +110,7 @@ def alive_now(before):
     return out
 
 
-def with_init_fault(tree, leaf_tag, idx, flag=None):
+def with_init_fault(tree, leaf_tag, idx, flag=None, kind=None):
     import copy
 
     t = copy.deepcopy(tree)
@@ -115,6 +119,8 @@ def with_init_fault(tree, leaf_tag, idx, flag=None):
             leaf[4]['fail_init_index'] = idx
             if flag:
                 leaf[4]['fail_init_flag'] = flag
+            if kind:
+                leaf[4]['fail_init_kind'] = kind
     return t
 
 
@@ -155,7 +161,7 @@ def run_start_fault(case):
     if case.get('transient'):
         fd, flag = tempfile.mkstemp(prefix='vf-c11-flag-')
         os.close(fd)
-    tree = with_init_fault(case['tree'], case['fail_leaf'], case['fail_index'], flag)
+    tree = with_init_fault(case['tree'], case['fail_leaf'], case['fail_index'], flag, case.get('init_kind'))
     before = watch.census()
     if case['gc_threshold']:
         gc.set_threshold(case['gc_threshold'])
@@ -183,7 +189,12 @@ def run_start_fault(case):
             pass
     else:
         e = box.get('exc')
-        if type(e).__name__ != 'InitBoom' or tuple(e.args) != (case['fail_leaf'], case['fail_index']):
+        if case.get('init_kind') == 'sysexit':
+            if not isinstance(e, SystemExit) or f"{case['fail_leaf']}[{case['fail_index']}]" not in str(e.code):
+                viol.append({'mech': 'lifecycle/enter-raised-other-error', 'msg': f'__enter__ raised {e!r}, expected the worker\'s SystemExit'})
+            else:
+                obs['enter_raised_own_error'] = 1
+        elif type(e).__name__ != 'InitBoom' or tuple(e.args) != (case['fail_leaf'], case['fail_index']):
             viol.append({'mech': 'lifecycle/enter-raised-other-error', 'msg': f'__enter__ raised {e!r}, expected InitBoom{(case["fail_leaf"], case["fail_index"])!r}'})
         else:
             obs['enter_raised_own_error'] = 1
